@@ -77,8 +77,9 @@ func NormalizeComparisonOperators(expr string) string {
 // expression for the evaluator.
 func IsVariablePath(expr string) bool {
 	expr = strings.TrimSpace(expr)
-	if expr == "" {
-		return false
+	switch expr {
+	case "", "true", "false", "nil":
+		return false // empty, or a literal keyword
 	}
 	i := 0
 	ident := func() bool {
